@@ -12,6 +12,7 @@ import (
 	"runtime"
 	"strings"
 	"sync"
+	"sync/atomic"
 	"time"
 
 	"filippo.io/age/internal/verifhook"
@@ -24,14 +25,36 @@ type history struct {
 
 // waitOrDeadlock waits for the goroutines of one mix; operations that each return when run alone and do not return when
 // run together are reported as a deadlock (exit status 4).
+// progress counts completed operations of all goroutines.
+var progress int64
+
+// waitOrDeadlock waits for the goroutines. A deadlock is the absence of ANY completed operation for three minutes (the
+// slowest single operation here takes milliseconds; on a loaded machine a whole batch may well take minutes, which is
+// not a deadlock); a batch that keeps making progress for 45 minutes is an infrastructure failure, not a verdict.
 func waitOrDeadlock(wg *sync.WaitGroup, what string) {
 	done := make(chan struct{})
 	go func() { wg.Wait(); close(done) }()
-	select {
-	case <-done:
-	case <-time.After(120 * time.Second):
-		fmt.Printf("DEADLOCK %s: the goroutines did not finish within 120 s\n", what)
-		os.Exit(4)
+	last := atomic.LoadInt64(&progress)
+	lastChange := time.Now()
+	start := time.Now()
+	tick := time.NewTicker(2 * time.Second)
+	defer tick.Stop()
+	for {
+		select {
+		case <-done:
+			return
+		case <-tick.C:
+			if now := atomic.LoadInt64(&progress); now != last {
+				last, lastChange = now, time.Now()
+			} else if time.Since(lastChange) > 3*time.Minute {
+				fmt.Printf("DEADLOCK %s: no operation of any goroutine has completed for three minutes (%d completed before)\n", what, last)
+				os.Exit(4)
+			}
+			if time.Since(start) > 45*time.Minute {
+				fmt.Fprintf(os.Stderr, "%s: still running after 45 minutes (%d operations completed): machine too slow or too loaded\n", what, last)
+				os.Exit(2)
+			}
+		}
 	}
 }
 
@@ -84,6 +107,7 @@ func main() {
 								runtime.Gosched()
 							}
 							results[p] = append(results[p], s.Do(op))
+							atomic.AddInt64(&progress, 1)
 						}
 					}
 				}(p)
@@ -126,6 +150,7 @@ func main() {
 						op = "enc" // encryptions in the mix: what limits or serialises them must not depend on who else is running
 					}
 					res[p] = append(res[p], s.Do(op))
+					atomic.AddInt64(&progress, 1)
 				}
 			}(p)
 		}
